@@ -2297,5 +2297,66 @@ class SessStream(_session.SessionStream):
         return out
 
 
+def attach_name_table():
+    """Decision table of the REAL `Session.prepare_attachment` as a function of (counter, given name): executed with the
+    counter set to n - 1 on every name of `_session.ATT_NAMES_ODD` / `ATT_NAMES_REFUSED` (n = 1) and on a few names for counters
+    of 1 to 6 digits.  Read back: did the write inside the block raise OSError (the file system refuses the name); the ONE
+    directory entry that appeared under <report dir>/attachments; the path the fired LogAttachmentEvent carries."""
+    import lemoncheesecake.events as E
+    import lemoncheesecake.session as S
+    from lemoncheesecake.reporting import Report
+    from lemoncheesecake.testtree import BaseTest
+
+    def lean_list(text):
+        return "[" + ", ".join(str(ord(ch)) for ch in text) + "]"
+    names = list(_session.ATT_NAMES_ODD) + list(_session.ATT_NAMES_REFUSED)
+    pairs = [(1, nm) for nm in names]
+    for n in (9, 10, 42, 999, 1000, 9999, 10000, 123456):
+        pairs += [(n, nm) for nm in ("f.txt", "core #1.txt", "a%20b?.txt", "0002_f.txt", "v" * 250, "v" * 249, "\u00e9" * 125, "w" * 300 + ".txt")]
+    rows = []
+    for n, nm in pairs:
+        tmp = tempfile.mkdtemp(prefix="lccverif-c06name-")
+        fired = []
+
+        class RecEM(E.EventManager):
+            def fire(self, event):
+                fired.append(event)
+        old_inst = S.Session._instance
+        try:
+            session = S.Session(RecEM.load(), tmp, Report())
+            S.Session._instance = session
+            session.start_test(R._node_chain(["s", "t"], _session.md_of("t", 1), BaseTest))
+            session.set_step("step")
+            session._attachment_count = n - 1
+            refused = False
+            try:
+                with session.prepare_attachment(nm, "d") as path:
+                    with open(path, "w") as fh:
+                        fh.write("x")
+            except OSError:
+                refused = True
+            adir = os.path.join(tmp, "attachments")
+            entries = sorted(os.listdir(adir)) if os.path.isdir(adir) else []
+            paths = [e.attachment_path for e in fired if isinstance(e, E.LogAttachmentEvent)]
+            if refused:
+                out = ("true", "[]", "[]") if not entries and not paths else ("true", lean_list("?unexpected"), lean_list(repr((entries, paths))))
+            elif len(entries) == 1 and len(paths) == 1:
+                out = ("false", lean_list(entries[0]), lean_list(paths[0]))
+            else:
+                out = ("false", lean_list("?unexpected"), lean_list(repr((entries, paths))))
+        finally:
+            S.Session._instance = old_inst
+            shutil.rmtree(tmp, ignore_errors=True)
+        human = "n=%d name=%r -> %s" % (n, nm[:40], "refused" if refused else "%r / %r" % (entries[0][:40] if entries else None, paths[0][:52] if paths else None))
+        rows.append(("(%d, %s)" % (n, lean_list(nm)), "(%s, %s, %s)" % out, human))
+    return C.Table("attachNameTable", "List ((Nat × List Nat) × (Bool × List Nat × List Nat))", rows)
+
+
+def tables(ctx):
+    # the stored name and the referenced path as a function of (counter, given name), and which names the file system refuses:
+    # obligation Generated/C06TablesCheck.lean (`AttachName.stored`, `AttachName.storable`, `Session.attachName`)
+    return [attach_name_table()]
+
+
 def streams(ctx):
     return [SessStream(), RunStream(ctx), AttachStream(), StoreStream()]
